@@ -757,7 +757,7 @@ theorem sync_limit_zero_never_progresses (arr : Arrange) (ord : RespOrder) (H : 
     simp only [hresp, applyDeltas, List.foldl_nil]
     split <;> rfl
 
-/-- **Fixed defect C18:config:merkle_tree_depth:digest-panics** (d124941).  Before the depth was
+/-- **Fixed defect C18:config:merkle_tree_depth:digest-panics** (c51a674).  Before the depth was
     bounded, depths 59–63 made `generate_digest` panic ("capacity overflow"); depth ≥ 64 panicked
     on the shift with overflow checks and wrapped to `depth mod 64` without them -/
 theorem digest_alloc_extremes :
@@ -798,7 +798,7 @@ theorem configured_depth_uses_one_bucket_function (H : Hasher) (sb : Bool) (vs :
   have h := digest_and_filter_use_same_bucket_function H sb vs depth π s k v hs hπ hget
   exact ⟨Nat.min_le_right _ _, h.1, h.2.1⟩
 
-/-- **Fixed defect C18:sync:config:max_keys_per_sync=0** (69ea959): the limit in effect is at
+/-- **Fixed defect C18:sync:config:max_keys_per_sync=0** (7f2c849): the limit in effect is at
     least one key per round -/
 theorem effective_limit_pos (limit : Nat) : 1 ≤ effectiveLimit true limit ∧ effectiveLimit false 0 = 0
     ∧ (1 ≤ limit → effectiveLimit true limit = limit) := by
